@@ -59,6 +59,25 @@ inline void wire_seeds(std::map<std::string, std::vector<Seed> >& m, std::set<ui
     push_seed(m, seen, "DNS", "wire:dns compressed", dns1);
     // 27-byte style message: CNAME answer whose last label ends exactly at the end of the message
     push_seed(m, seen, "DNS", "wire:dns label-at-end", H("0001 8000 0000 0001 0000 0000  00 0005 0001 00000001 0003 026162"));
+    // names at the 255-octet limit: dotted lengths 252..258 built from labels of 63,63,63,x[,1], in the question, as CNAME data and
+    // reached through a compression pointer
+    for (int total = 252; total <= 258; ++total)
+        for (int five = 0; five < 2; ++five) {
+            std::vector<int> labels = {63, 63, 63};
+            int rest = total - (63 * 3 + 3);          // characters left incl. the dots that precede them
+            if (five) { if (rest < 4) continue; labels.push_back(rest - 1 - 2); labels.push_back(1); }
+            else { if (rest < 2 || rest - 1 > 63) continue; labels.push_back(rest - 1); }
+            Bytes name;
+            for (size_t li = 0; li < labels.size(); ++li) { name.push_back((uint8_t)labels[li]); for (int i = 0; i < labels[li]; ++i) name.push_back(uint8_t('a' + (li + i) % 26)); }
+            Bytes q = H("0001 0100 0001 0000 0000 0000"); q.insert(q.end(), name.begin(), name.end()); q.push_back(0); Bytes t = H("0001 0001"); q.insert(q.end(), t.begin(), t.end());
+            push_seed(m, seen, "DNS", "wire:dns long question " + std::to_string(total), q);
+            Bytes a = H("0001 8100 0001 0001 0000 0000 0161 00 0005 0001  c00c 0005 0001 00000010"); uint16_t rl = (uint16_t)(name.size() + 1); a.push_back(rl >> 8); a.push_back(rl & 0xff);
+            a.insert(a.end(), name.begin(), name.end()); a.push_back(0);
+            push_seed(m, seen, "DNS", "wire:dns long cname " + std::to_string(total), a);
+            // first label inline, the rest through a pointer to the question name's second label (offset 12 + 64)
+            Bytes c = q; Bytes an = H("0161 c04c 0001 0001 00000010 0004 01020304"); c[7] = 1; c.insert(c.end(), an.begin(), an.end());
+            push_seed(m, seen, "DNS", "wire:dns long via pointer " + std::to_string(total), c);
+        }
     push_seed(m, seen, "DNS", "wire:dns ptr-loop", H("0001 8000 0001 0000 0000 0000  c00c 0001 0001"));
     push_seed(m, seen, "DNS", "wire:dns soa", H("0002 8400 0000 0001 0000 0000  03636f6d00 0006 0001 00000e10 001d"
                                                  "016103636f6d00 016203636f6d00 00000001 00000002 00000003 00000004 00000005"));
